@@ -2,6 +2,7 @@
 import fw
 import pipecheck
 import pipes
+import customsrc
 import trampipes
 from pipecheck import canon_impl, canon_model  # noqa: F401
 
@@ -17,7 +18,8 @@ RULE = ("generated pipelines of 1..3 catalogued operator stages (122 stage kinds
         "model (flags compared at every quiescent point); oracle: every test-source subscription is closed no later than the subscriber's "
         "terminal notification. plus default-scheduler runs (harness/trampipes.py): trees of cold synchronous producers and combinators on "
         "the current-thread trampoline, never disposed; oracle: once the terminal was delivered and the trampoline drained, every leaf "
-        "subscription that was opened has been released exactly once. non-trivial = the subscriber got a terminal and at least two "
+        "subscription that was opened has been released exactly once. plus user-defined sources (reactivex.create / Observable(subscribe)) returning "
+        "their teardown in every form the library accepts: the teardown runs exactly once when the terminal is delivered. non-trivial = the subscriber got a terminal and at least two "
         "source subscriptions were opened")
 ASSUMPTIONS = ["windows and groups are flattened inside the generated pipelines, so the subscriber holds no live group/window after the terminal",
                "single-threaded execution: virtual time for timelines, the default current-thread trampoline for cold synchronous producers"]
@@ -46,13 +48,17 @@ def cases(rng, tier):
         yield {"op": "pipeline", "pipeline": pipes.gen_case(rng, 3)}
     for _ in range(fw.tier_scale(tier, 500, 6000)):
         yield {"op": "tramp", "tree": trampipes.gen_tree(rng, 3), "k": None}
+    for _ in range(fw.tier_scale(tier, 300, 3000)):
+        yield dict(customsrc.gen(rng), dispose_after=None)
 
 
 def model_request(case):
-    return None if case["op"] == "tramp" else pipecheck.model_request(case)
+    return None if case["op"] in ("tramp", "custom") else pipecheck.model_request(case)
 
 
 def impl(case):
+    if case["op"] == "custom":
+        return customsrc.run(case)
     if case["op"] == "tramp":
         try:
             return trampipes.run(case)
@@ -63,6 +69,8 @@ def impl(case):
 
 
 def oracle(case, out):
+    if case["op"] == "custom":
+        return customsrc.oracle(case, out)
     if case["op"] == "tramp":
         return None if out.get("rejected") else trampipes.released(out)
     term = [t for t, n in out["log"] if n[0] in ("E", "C")]
@@ -77,12 +85,17 @@ def oracle(case, out):
 
 
 def nontrivial(case, out):
+    if case["op"] == "custom":
+        return any(g[0] in ("E", "C") for g in out["got"]) and out["subscribed"] > 0 and case["form"] != "none"
     if case["op"] == "tramp":
         return any(e[0] in ("E", "C") for e in out["log"]) and sum(1 for e in out["log"] if e[0] == "sub") >= 2
     return any(n[0] in ("E", "C") for _, n in out["log"]) and sum(len(s) for s in out["subs"]) >= 2
 
 
 def bucket(case, out):
+    if case["op"] == "custom":
+        yield "custom-source:" + case["form"]
+        return
     if case["op"] == "tramp":
         yield "tramp:" + ("terminal" if any(e[0] in ("E", "C") for e in out["log"]) else "rejected" if out.get("rejected") else "no-terminal")
         return
@@ -92,6 +105,10 @@ def bucket(case, out):
 
 
 def shrink(case):
+    if case["op"] == "custom":
+        for i in range(len(case["stages"])):
+            yield dict(case, stages=case["stages"][:i] + case["stages"][i + 1:])
+        return
     if case["op"] == "tramp":
         import props.C03 as c03
         for t in c03._subtrees(case["tree"]):
@@ -122,6 +139,11 @@ def search(rng, tier, disagreeing):
         if v:
             f = fw.Failure("oracle", c, v)
             return fw.shrink_failure(__import__("props.C02", fromlist=["x"]), f)
+    for i in range(fw.tier_scale(tier, 1500, 6000)):
+        c = dict(customsrc.gen(rng), dispose_after=None)
+        v = oracle(c, impl(c))
+        if v:
+            return fw.shrink_failure(__import__("props.C02", fromlist=["x"]), fw.Failure("oracle", c, v))
     for i in range(fw.tier_scale(tier, 1500, 10000)):
         c = {"op": "tramp", "tree": trampipes.gen_tree(rng, 3), "k": None}
         v = oracle(c, impl(c))
